@@ -1,6 +1,6 @@
 (* C13 — Body temporal formulas are pure observers of the trace.  Property theorems only. *)
 From Coq Require Import List Bool Arith ZArith Lia.
-Require Import HT Ext BodyTheoryCore GenPrelude TheoryPrelude FromTheory Leaf_theory.
+Require Import HT Ext Observer BodyTheoryCore GenPrelude TheoryPrelude FromTheory Leaf_theory.
 Require BodyTheoryFull.
 Require Import Leaf_dynamic TheoryAtomsProofs.
 (* Frozen choice: a program P extended with choice atoms X (the Tseitin atoms) and negated constraints C (the clauses)
@@ -49,6 +49,52 @@ Theorem C13_boolean_clauses_definitional : forall op v, exists b, forall b', hol
 Proof.
   intros op v. exists (bool_spec op (v Llhs) (v Lrhs)). intros b'. rewrite boolean_clauses_spec. reflexivity.
 Qed.
+(* ---- the property at the level of equilibrium logic, composed ----
+   (1) none is invented: the user part of an answer set of the program extended with the auxiliary choice atoms X and the constraints C
+       (what Theory.translate adds for the body formulas, a program P in which no auxiliary atom occurs) is an answer set of P *)
+Theorem C13_observers_invent_no_answer_set : forall (A : Type) (isaux : A -> bool) (P : list (form A)) (X : list A) (C : list (form A)),
+  (forall f, In f P -> DefElim.clean A isaux f) -> (forall x, In x X <-> isaux x = true) ->
+  forall T : interp A, equilibrium A T (extended A P X C) -> equilibrium A (user A isaux T) P.
+Proof. exact observers_project. Qed.
+(* (2) none is lost: when every valuation of the user atoms has an extension to the auxiliary atoms that violates no constraint (existence half of
+       C13_unique_extension_full), every answer set of P extends to an answer set of the extended program *)
+Theorem C13_observers_lose_no_answer_set : forall (A : Type) (isaux : A -> bool) (P : list (form A)) (X : list A) (C : list (form A)),
+  (forall f, In f P -> DefElim.clean A isaux f) -> (forall x, In x X <-> isaux x = true) ->
+  (forall U : interp A, exists T, DefElim.agree_clean A isaux T U /\ okC A C T) ->
+  forall U : interp A, equilibrium A U P -> exists T, DefElim.agree_clean A isaux T U /\ equilibrium A T (extended A P X C).
+Proof. exact observers_lift. Qed.
+(* (3) none is duplicated: when that extension is unique (uniqueness half), two answer sets of the extended program with the same user atoms are equal *)
+Theorem C13_observers_duplicate_no_answer_set : forall (A : Type) (isaux : A -> bool) (P : list (form A)) (X : list A) (C : list (form A)),
+  (forall x, In x X <-> isaux x = true) ->
+  (forall T T' : interp A, DefElim.agree_clean A isaux T T' -> okC A C T -> okC A C T' -> forall a, T a = T' a) ->
+  forall T T' : interp A, equilibrium A T (extended A P X C) -> equilibrium A T' (extended A P X C) -> DefElim.agree_clean A isaux T T' -> forall a, T a = T' a.
+Proof. exact observers_no_duplicates. Qed.
+(* (4) the rule  w :- not not x  with an atom w that occurs nowhere else adds w exactly where x holds and changes nothing else: the answer sets of the
+       program with the rule, with w removed, are answer sets of the program, and every answer set of the program (without w) becomes one of the
+       program with the rule by setting w to the value of x.  G is ANY program - rules, choice atoms, constraints, other observers *)
+Theorem C13_fresh_observer_adds_only_w : forall (A : Type) (D : forall a b : A, {a = b} + {a <> b}) (w x : A) (G : list (form A)),
+  (forall f, In f G -> DefElim.clean A (isw A D w) f) ->
+  forall T : interp A, equilibrium A T (observer A w x :: G) -> T w = T x /\ equilibrium A (setw A D w false T) G.
+Proof. exact observer_forward. Qed.
+Theorem C13_fresh_observer_keeps_every_answer_set : forall (A : Type) (D : forall a b : A, {a = b} + {a <> b}) (w x : A), w <> x -> forall G : list (form A),
+  (forall f, In f G -> DefElim.clean A (isw A D w) f) ->
+  forall U : interp A, U w = false -> equilibrium A U G -> equilibrium A (setw A D w (U x) U) (observer A w x :: G).
+Proof. exact observer_backward. Qed.
+(* (5) a constraint only selects among the answer sets, and  :- x.  /  :- not x.  split them into two disjoint classes that together are all of them *)
+Theorem C13_constraint_only_selects : forall (A : Type) (G : list (form A)) (c : form A) (T : interp A),
+  equilibrium A T (Not A c :: G) <-> equilibrium A T G /\ csat A T c = false.
+Proof. exact constraint_selects. Qed.
+Theorem C13_literal_splits_the_answer_sets : forall (A : Type) (G : list (form A)) (x : A) (T : interp A),
+  (equilibrium A T G <-> equilibrium A T (Not A (Var A x) :: G) \/ equilibrium A T (Not A (Not A (Var A x)) :: G)) /\
+  ~ (equilibrium A T (Not A (Var A x) :: G) /\ equilibrium A T (Not A (Not A (Var A x)) :: G)).
+Proof. exact literal_splits. Qed.
+Print Assumptions C13_observers_invent_no_answer_set.
+Print Assumptions C13_observers_lose_no_answer_set.
+Print Assumptions C13_observers_duplicate_no_answer_set.
+Print Assumptions C13_fresh_observer_adds_only_w.
+Print Assumptions C13_fresh_observer_keeps_every_answer_set.
+Print Assumptions C13_constraint_only_selects.
+Print Assumptions C13_literal_splits_the_answer_sets.
 Print Assumptions C13_frozen_choice.
 Print Assumptions C13_unique_extension.
 Print Assumptions C13_temporal_clauses_definitional.
